@@ -187,7 +187,7 @@ pub fn prop() -> Prop {
         gen,
         check,
         panic_is_violation: false,
-        budget: (300_000, 10_000_000),
+        budget: (1800000, 60000000),
         extra: Some(extra),
         required: &["margin_removed_multi_line", "whitespace_only_line", "idempotence_checked", "indent_dedent_checked", "with_cr"],
         known: None,
